@@ -180,9 +180,13 @@ def worker(job):
         R.violation("wrong-field", "backend %s works in a field of order %d" % (be, p))
     rnd = random.Random(job["seed"])
     home = os.getcwd()
+    reuse = tempfile.mkdtemp(prefix="c11same-", dir=home)
     for n in range(job["n"]):
         hostile = rnd.random() < 0.5
-        if hostile:
+        if n == 1:
+            src, inputs = "x = PrivVal(I[0])\ny = PubVal(I[1])\nfor k in range(%d):\n    y = y * x + k\nz = y.val()\n" % rnd.randint(4200, 9000), [3, -2]
+            bl, res, klass = 16, 8, "large"
+        elif hostile:
             src, inputs = realrun.hostile_program(rnd, p)
             bl, res, klass = 16, 8, "hostile"
         else:
@@ -213,16 +217,21 @@ def worker(job):
             classes.add("no-constraints")
         if classes & {"neg", ">=p", ">256bit"}:
             R.count("hostile_values_seen")
-        wd = tempfile.mkdtemp(prefix="c11-", dir=home)
+        same_dir = n % 3 == 0
+        wd = reuse if same_dir else tempfile.mkdtemp(prefix="c11-", dir=home)
         try:
             prove_in(rt, wd, home)
-            validate(R, snap, wd, dict(src=src, inputs=inputs, bl=bl, res=res, classes=sorted(classes)), be)
+            validate(R, snap, wd, dict(src=src[:400], inputs=inputs, bl=bl, res=res, classes=sorted(classes), directory_reused=same_dir), be)
+            if same_dir:
+                R.count("runs_in_a_reused_directory")
         finally:
-            shutil.rmtree(wd, ignore_errors=True)
+            if not same_dir:
+                shutil.rmtree(wd, ignore_errors=True)
         R.count("programs_validated")
         R.count("programs_validated:" + be)
         R.case(cell="%s|%s|%s" % (be, klass, "+".join(sorted(classes)) or "plain"), key=(be, src, tuple(inputs)))
-        R.sample(dict(backend=be, src=src, inputs=inputs, classes=sorted(classes), constraints=len(snap["constraints"])), cap=3)
+        R.sample(dict(backend=be, src=src[:400], inputs=inputs, classes=sorted(classes), constraints=len(snap["constraints"])), cap=3)
+    shutil.rmtree(reuse, ignore_errors=True)
     # state that survives: prove twice with more tracing in between; then switch the field in this interpreter
     # (what importing a derived backend after the base one amounts to) and write again
     if hasattr(rt.backend, "set_modulus"):
